@@ -35,6 +35,7 @@ import (
 	"github.com/cloudflare/circl/ecc/fourq"
 	"github.com/cloudflare/circl/ecc/goldilocks"
 	"github.com/cloudflare/circl/group"
+	"github.com/cloudflare/circl/hpke"
 	"github.com/cloudflare/circl/internal/verifmc"
 	"github.com/cloudflare/circl/kem"
 	kemschemes "github.com/cloudflare/circl/kem/schemes"
@@ -44,6 +45,8 @@ import (
 	pke768 "github.com/cloudflare/circl/pke/kyber/kyber768"
 	"github.com/cloudflare/circl/sign"
 	"github.com/cloudflare/circl/sign/bls"
+	"github.com/cloudflare/circl/sign/ed25519"
+	"github.com/cloudflare/circl/sign/ed448"
 	signschemes "github.com/cloudflare/circl/sign/schemes"
 	tssrsa "github.com/cloudflare/circl/tss/rsa"
 	"github.com/cloudflare/circl/vdaf/prio3/arith/fp128"
@@ -105,16 +108,16 @@ func (tg *c11Target) step(obj interface{}, in c11Input, checkRetain bool) (out c
 		if !checkRetain {
 			return out, inputMutated, false
 		}
-		// information only: does the object keep a reference to the caller's buffer?
+		// does the object keep a reference to the caller's buffer? Overwrite it and observe again.
 		for i := range buf {
-			buf[i] ^= 0xa5
+			buf[i] ^= 0xff
 		}
 		var obs2 []byte
 		if p, _ := verifmc.Try(func() { obs2 = tg.observe(obj) }); p || !bytes.Equal(obs2, out.obs) {
 			retains = true
 		}
 		for i := range buf {
-			buf[i] ^= 0xa5
+			buf[i] ^= 0xff
 		}
 	}
 	return out, inputMutated, retains
@@ -268,6 +271,9 @@ func c11KemTargets() []*c11Target {
 		}
 		out = append(out, c11StructTargets("kem:"+sch.Name(), pk0, obsPk, pks)...)
 		out = append(out, c11StructTargets("kem:"+sch.Name(), sk0, obsSk, sks)...)
+		out = append(out,
+			c11HolderTarget("kem:"+sch.Name()+".Scheme.UnmarshalBinaryPublicKey", func(in []byte) (interface{}, error) { return sch.UnmarshalBinaryPublicKey(in) }, obsPk, pks),
+			c11HolderTarget("kem:"+sch.Name()+".Scheme.UnmarshalBinaryPrivateKey", func(in []byte) (interface{}, error) { return sch.UnmarshalBinaryPrivateKey(in) }, obsSk, sks))
 	}
 	return out
 }
@@ -310,6 +316,9 @@ func c11SignTargets() []*c11Target {
 		}
 		out = append(out, c11StructTargets("sign:"+sch.Name(), pk0, obsPk, pks)...)
 		out = append(out, c11StructTargets("sign:"+sch.Name(), sk0, obsSk, sks)...)
+		out = append(out,
+			c11HolderTarget("sign:"+sch.Name()+".Scheme.UnmarshalBinaryPublicKey", func(in []byte) (interface{}, error) { return sch.UnmarshalBinaryPublicKey(in) }, obsPk, pks),
+			c11HolderTarget("sign:"+sch.Name()+".Scheme.UnmarshalBinaryPrivateKey", func(in []byte) (interface{}, error) { return sch.UnmarshalBinaryPrivateKey(in) }, obsSk, sks))
 	}
 	return out
 }
@@ -777,7 +786,8 @@ func c11TssTargets() []*c11Target {
 			},
 			observe: func(o interface{}) []byte {
 				k := o.(*tssrsa.KeyShare)
-				m1 := c11MustBytes(k.MarshalBinary()) // before Sign: shows whether a cached value is present
+				// Sign first (it fills the cache), MarshalBinary afterwards: the observation is then the same
+				// however often it is taken on one object
 				sg, err := k.Sign(nil, &key.PublicKey, digest, false)
 				e := ""
 				var sb []byte
@@ -786,7 +796,7 @@ func c11TssTargets() []*c11Target {
 				} else {
 					sb = c11MustBytes(sg.MarshalBinary())
 				}
-				return c11Cat(m1, sb, []byte(e), []byte(fmt.Sprint(k.Index, k.Players, k.Threshold)))
+				return c11Cat(c11MustBytes(k.MarshalBinary()), sb, []byte(e), []byte(fmt.Sprint(k.Index, k.Players, k.Threshold)))
 			}, inputs: ksIn},
 		{name: "tss/rsa.SignShare.UnmarshalBinary", fresh: func() interface{} { return new(tssrsa.SignShare) },
 			decode: func(o interface{}, in []byte) (bool, string) {
@@ -800,6 +810,121 @@ func c11TssTargets() []*c11Target {
 	}
 }
 
+// c11Holder lets constructors that RETURN a decoded object (Scheme.UnmarshalBinary*Key,
+// hpke.UnmarshalSealer, NewKeyFromSeed, FromBytes ...) be driven like in-place decoders.
+type c11Holder struct{ v interface{} }
+
+func c11HolderTarget(name string, mk func(in []byte) (interface{}, error), observe func(obj interface{}) []byte, valid [][]byte) *c11Target {
+	tg := &c11Target{name: name,
+		fresh: func() interface{} { return &c11Holder{} },
+		decode: func(o interface{}, in []byte) (bool, string) {
+			v, err := mk(in)
+			if err != nil {
+				return false, err.Error()
+			}
+			if v == nil || (reflect.ValueOf(v).Kind() == reflect.Ptr && reflect.ValueOf(v).IsNil()) {
+				return false, "nil result"
+			}
+			o.(*c11Holder).v = v
+			return true, ""
+		},
+		observe: func(o interface{}) []byte { return observe(o.(*c11Holder).v) }}
+	n := len(valid[0])
+	for i, v := range valid {
+		tg.inputs = append(tg.inputs, c11Input{fmt.Sprintf("valid%d", i), v})
+	}
+	tg.inputs = append(tg.inputs, c11Input{"allFF", c11Fill(n, 0xff)}, c11Input{"short", append([]byte{}, valid[0][:n/2]...)})
+	return tg
+}
+
+// Constructors and decoders of the group API, HPKE contexts and seeds.
+func c11ConstructorTargets() []*c11Target {
+	var out []*c11Target
+	for _, g := range []group.Group{group.P256, group.P384, group.P521, group.Ristretto255} {
+		g := g
+		var es, ec, ss [][]byte
+		for i := 0; i < 3; i++ {
+			e := g.HashToElement([]byte{byte(i)}, []byte("c11-ctor-e"))
+			sc := g.HashToScalar([]byte{byte(i)}, []byte("c11-ctor-s"))
+			es = append(es, c11MustBytes(e.MarshalBinary()))
+			ec = append(ec, c11MustBytes(e.MarshalBinaryCompress()))
+			ss = append(ss, c11MustBytes(sc.MarshalBinary()))
+		}
+		obsE := func(o interface{}) []byte {
+			e := o.(group.Element)
+			return c11Cat(c11MustBytes(e.MarshalBinary()), c11MustBytes(e.MarshalBinaryCompress()), c11MustBytes(g.NewElement().Dbl(e).MarshalBinary()))
+		}
+		obsS := func(o interface{}) []byte {
+			x := o.(group.Scalar)
+			return c11Cat(c11MustBytes(x.MarshalBinary()), c11MustBytes(g.NewScalar().Add(x, x).MarshalBinary()), c11MustBytes(g.NewElement().MulGen(x).MarshalBinary()))
+		}
+		mkE := func(in []byte) (interface{}, error) { e := g.NewElement(); return e, e.UnmarshalBinary(in) }
+		mkS := func(in []byte) (interface{}, error) { x := g.NewScalar(); return x, x.UnmarshalBinary(in) }
+		tS := c11HolderTarget("group:"+fmt.Sprint(g)+".Scalar.UnmarshalBinary", mkS, obsS, ss)
+		tS.inputs = tS.inputs[:len(tS.inputs)-2] // scalar decoders of the NIST groups pad / panic on other lengths (C09/C10 matter)
+		tS.inputs = append(tS.inputs, c11Input{"zero", make([]byte, len(ss[0]))})
+		out = append(out,
+			c11HolderTarget("group:"+fmt.Sprint(g)+".Element.UnmarshalBinary", mkE, obsE, es),
+			c11HolderTarget("group:"+fmt.Sprint(g)+".Element.UnmarshalBinary(compressed)", mkE, obsE, ec), tS)
+	}
+	// HPKE contexts (observation never advances the context)
+	{
+		suite := hpke.NewSuite(hpke.KEM_X25519_HKDF_SHA256, hpke.KDF_HKDF_SHA256, hpke.AEAD_AES128GCM)
+		sch := hpke.KEM_X25519_HKDF_SHA256.Scheme()
+		var rs, ro [][]byte
+		for i := 0; i < 3; i++ {
+			pk, sk := sch.DeriveKeyPair(verifmc.Shake(fmt.Sprintf("c11-ctor-hpke-%d", i), sch.SeedSize()))
+			snd, _ := suite.NewSender(pk, []byte("c11"))
+			enc, sealer, err := snd.Setup(verifmc.NewDetReader(fmt.Sprintf("c11-ctor-hpke-r%d", i)))
+			if err != nil {
+				panic(err)
+			}
+			rcv, _ := suite.NewReceiver(sk, []byte("c11"))
+			opener, err := rcv.Setup(enc)
+			if err != nil {
+				panic(err)
+			}
+			rs = append(rs, c11MustBytes(sealer.MarshalBinary()))
+			ro = append(ro, c11MustBytes(opener.MarshalBinary()))
+		}
+		obs := func(o interface{}) []byte {
+			c := o.(hpke.Context)
+			return c11Cat(c11MustBytes(c.MarshalBinary()), c.Export([]byte("c11 exp"), 16))
+		}
+		out = append(out,
+			c11HolderTarget("hpke.UnmarshalSealer", func(in []byte) (interface{}, error) { return hpke.UnmarshalSealer(in) }, obs, rs),
+			c11HolderTarget("hpke.UnmarshalOpener", func(in []byte) (interface{}, error) { return hpke.UnmarshalOpener(in) }, obs, ro))
+	}
+	// Ed25519 / Ed448 keys from seeds, goldilocks.FromBytes
+	{
+		var s25, s448, gp [][]byte
+		for i := 0; i < 3; i++ {
+			s25 = append(s25, verifmc.Shake(fmt.Sprintf("c11-ctor-ed25519-%d", i), ed25519.SeedSize))
+			s448 = append(s448, verifmc.Shake(fmt.Sprintf("c11-ctor-ed448-%d", i), ed448.SeedSize))
+			var k goldilocks.Scalar
+			k.FromBytes(verifmc.Shake(fmt.Sprintf("c11-ctor-gold-%d", i), 56))
+			gp = append(gp, c11MustBytes(goldilocks.Curve{}.ScalarBaseMult(&k).MarshalBinary()))
+		}
+		msg := []byte("c11 ctor msg")
+		t25 := c11HolderTarget("ed25519.NewKeyFromSeed", func(in []byte) (interface{}, error) { return ed25519.NewKeyFromSeed(in), nil },
+			func(o interface{}) []byte {
+				k := o.(ed25519.PrivateKey)
+				return c11Cat(k, k.Seed(), ed25519.Sign(k, msg))
+			}, s25)
+		t25.inputs = t25.inputs[:3] // other lengths panic by contract
+		t448 := c11HolderTarget("ed448.NewKeyFromSeed", func(in []byte) (interface{}, error) { return ed448.NewKeyFromSeed(in), nil },
+			func(o interface{}) []byte {
+				k := o.(ed448.PrivateKey)
+				return c11Cat(k, k.Seed(), ed448.Sign(k, msg, ""))
+			}, s448)
+		t448.inputs = t448.inputs[:3]
+		tg := c11HolderTarget("goldilocks.FromBytes", func(in []byte) (interface{}, error) { return goldilocks.FromBytes(in) },
+			func(o interface{}) []byte { return c11MustBytes(o.(*goldilocks.Point).MarshalBinary()) }, gp)
+		out = append(out, t25, t448, tg)
+	}
+	return out
+}
+
 func c11AllDecodeTargets() []*c11Target {
 	var all []*c11Target
 	all = append(all, c11KemTargets()...)
@@ -811,6 +936,7 @@ func c11AllDecodeTargets() []*c11Target {
 	all = append(all, c11CurveTargets()...)
 	all = append(all, c11MiscTargets()...)
 	all = append(all, c11TssTargets()...)
+	all = append(all, c11ConstructorTargets()...)
 	return all
 }
 
@@ -916,6 +1042,46 @@ func TestVerifC11_hist_decode(t *testing.T) {
 				retMu.Lock()
 				retaining[tg.name] = true
 				retMu.Unlock()
+				col.add(&c11DecViol{key: "C11|" + tg.name + "|object-depends-on-input-buffer|overwritten-after-decode", caseID: tg.name + "|" + in.name + "|overwrite", n: 1,
+					what:    fmt.Sprintf("%s: after a successful decode of %s the caller overwrites its input buffer (every byte ^0xFF): the observation of the decoded object changes, i.e. the object keeps a reference to the caller's buffer", tg.name, in.name),
+					payload: map[string]interface{}{"input": verifmc.Hex(in.data)}})
+			}
+			if o1.ok && !o1.panicked {
+				r.Count("input_buffer_overwritten_after_decode", 1)
+			}
+		}
+		// the same buffer reused for a second decode with different content: both objects must equal
+		// objects decoded from private copies (also when the first one is first observed only afterwards)
+		for i, a := range tg.inputs {
+			if !usable[ti][i] || !freshOut[ti][i].ok || freshOut[ti][i].panicked {
+				continue
+			}
+			for j, b := range tg.inputs {
+				if i == j || !usable[ti][j] || !freshOut[ti][j].ok || freshOut[ti][j].panicked || len(a.data) != len(b.data) || bytes.Equal(a.data, b.data) {
+					continue
+				}
+				buf := append([]byte{}, a.data...)
+				o1, o2 := tg.fresh(), tg.fresh()
+				var obs1, obs2 []byte
+				var ok1, ok2 bool
+				p, what := verifmc.Try(func() {
+					ok1, _ = tg.decode(o1, buf)
+					copy(buf, b.data)
+					ok2, _ = tg.decode(o2, buf)
+					obs1, obs2 = tg.observe(o1), tg.observe(o2)
+				})
+				r.Eval(1)
+				r.Count("one_buffer_reused_for_two_decodes", 1)
+				r.Distinct(tg.name, "reuse", a.name, b.name)
+				if p || !ok1 || !ok2 || !bytes.Equal(obs1, freshOut[ti][i].obs) || !bytes.Equal(obs2, freshOut[ti][j].obs) {
+					which := "first"
+					if !p && ok1 && bytes.Equal(obs1, freshOut[ti][i].obs) {
+						which = "second"
+					}
+					col.add(&c11DecViol{key: "C11|" + tg.name + "|object-depends-on-input-buffer|buffer-reused-for-second-decode", caseID: tg.name + "|" + a.name + "," + b.name + "|reuse", n: 2,
+						what: fmt.Sprintf("%s: k1 := decode(buf holding %s); copy(buf, %s); k2 := decode(buf): the %s object differs from one decoded from a private copy (panic=%v %s)", tg.name, a.name, b.name, which, p, what)})
+				}
+				break // one partner per input
 			}
 		}
 		if nOK < 2 {
@@ -1056,7 +1222,9 @@ func TestVerifC11_hist_decode(t *testing.T) {
 		rl = append(rl, k)
 	}
 	sort.Strings(rl)
-	r.Set("decoders_whose_object_keeps_a_reference_to_the_input_buffer(info only, not demanded)", rl)
+	r.Set("decoders_whose_object_keeps_a_reference_to_the_input_buffer", rl)
+	r.RequireCounter("input_buffer_overwritten_after_decode", 400)
+	r.RequireCounter("one_buffer_reused_for_two_decodes", 300)
 	r.RequireCounter("decodes_into_used_object", 2000)
 	r.RequireCounter("successful_decode_after_failed_decode", 100)
 	if len(targets) < 80 {
